@@ -539,6 +539,29 @@ theorem deliver_handles (s : State V) (c : Conn) (j : Option (AL V)) :
   unfold deliver
   split <;> simp
 
+omit [LawfulJVal V] in
+theorem markClosing_fields (s : State V) (c : Conn) :
+    (markClosing s c).fronts = s.fronts ∧ (markClosing s c).handles = s.handles ∧
+    (markClosing s c).next = s.next ∧ (markClosing s c).away = s.away := by
+  unfold markClosing; split <;> simp
+
+omit [LawfulJVal V] in
+theorem backKick_fields (cfg : Cfg) (s : State V) (b : Back V) :
+    (backKick cfg s b).fronts = s.fronts ∧ (backKick cfg s b).handles = s.handles ∧
+    (backKick cfg s b).next = s.next ∧ (backKick cfg s b).away = s.away := by
+  unfold backKick
+  split
+  · simp
+  · split
+    · simp
+    · exact markClosing_fields _ _
+
+theorem inv_markClosing {g : Bool} {s : State V} (c : Conn) (hs : Inv g s) : Inv g (markClosing s c) :=
+  ⟨by rw [(markClosing_fields s c).1]; exact hs.fronts, by rw [(markClosing_fields s c).2.1]; exact hs.handles⟩
+
+theorem inv_backKick {g : Bool} {s : State V} (cfg : Cfg) (b : Back V) (hs : Inv g s) : Inv g (backKick cfg s b) :=
+  ⟨by rw [(backKick_fields cfg s b).1]; exact hs.fronts, by rw [(backKick_fields cfg s b).2.1]; exact hs.handles⟩
+
 /-- one statement keeps the invariants -/
 theorem sstep_inv {g : Bool} (cfg : Cfg) {s : State V} {sess : Sess V} (kept : Option String) {op : SOp V}
     (hs : Inv g s) (hse : SessInv g sess) (hg : GuardSOp g op) :
@@ -564,6 +587,11 @@ theorem sstep_inv {g : Bool} (cfg : Cfg) {s : State V} {sess : Sess V} (kept : O
       | set k v => exact ⟨setCase k v hg, trivial⟩
       | bind uid =>
         exact ⟨setCase KeyUId (JVal.str uid) (fun _ => ⟨keyUId_ne_sid, keyUId_ne_nid, LawfulJVal.rep_str _⟩), trivial⟩
+      | kick =>
+        simp only
+        split
+        · exact ⟨inv_markClosing _ hs, trivial⟩
+        · exact ⟨hs, trivial⟩
       | _ => exact ⟨hs, trivial⟩
   | back b =>
     have hb : BackInv g b := hse
@@ -622,6 +650,27 @@ theorem sstep_inv {g : Bool} (cfg : Cfg) {s : State V} {sess : Sess V} (kept : O
       · next m hm => exact ⟨hs, backInv_fromJson hb (fun hg' => (hs.fronts _ _ hm).rep hg')⟩
     | fromRaw => exact ⟨hs, backInv_fromJson_none hb⟩
     | updRaw => exact ⟨hs, hb⟩
+    | kick =>
+      simp only [sstepBack]
+      split
+      · exact ⟨hs, hb⟩
+      · exact ⟨inv_backKick cfg b hs, hb⟩
+    | busy => exact ⟨hs, hb⟩
+    | clone h =>
+      simp only [sstepBack]
+      split
+      · exact ⟨hs, hb⟩
+      · split
+        · exact ⟨hs, hb⟩
+        · split
+          · exact ⟨hs, hb⟩
+          · refine ⟨⟨hs.fronts, ?_⟩, hb⟩
+            intro h' b' hh
+            simp only at hh
+            rw [lget_lset] at hh
+            split at hh
+            · cases hh; exact backInv_init g _ _ _ _
+            · exact hs.handles _ _ hh
 
 theorem runScript_inv {g : Bool} (cfg : Cfg) {s : State V} {sess : Sess V} (kept : Option String) (sc : List (SOp V))
     (hs : Inv g s) (hse : SessInv g sess) (hg : GuardScript g sc) :
@@ -647,7 +696,7 @@ theorem inv_storeKept {g : Bool} {s : State V} {sess : Sess V} (kept : Option St
   · exact hs
 
 theorem step_inv {g : Bool} (cfg : Cfg) {s : State V} {op : Op V} (hs : Inv g s) (hg : GuardOp g op) :
-    Inv g (step cfg s op).st := by
+    Inv g (step cfg dr s op).st := by
   cases op with
   | openC f =>
     simp only [step]
@@ -666,12 +715,7 @@ theorem step_inv {g : Bool} (cfg : Cfg) {s : State V} {op : Op V} (hs : Inv g s)
     · exact hs
     · split
       · exact hs
-      · refine ⟨?_, hs.handles⟩
-        intro c' m' h'
-        simp only at h'
-        by_cases hc : c' = c
-        · subst hc; rw [lget_ldel_same] at h'; cases h'
-        · rw [lget_ldel_other _ hc] at h'; exact hs.fronts _ _ h'
+      · exact inv_markClosing _ hs
   | req c svcType ntf script =>
     simp only [step, stepReq]
     split
@@ -749,12 +793,36 @@ theorem step_inv {g : Bool} (cfg : Cfg) {s : State V} {op : Op V} (hs : Inv g s)
       · have h := runScript_inv cfg (some h) script hs (sess := .back b) (hs.handles _ _ hb) hg
         exact inv_storeKept _ h.1 h.2
 
+/-- the queued removals keep the invariants (they only delete) -/
+theorem inv_removeOne {g : Bool} {acc : State V × List (Conn × AL V)} (c : Conn) (hs : Inv g acc.1) :
+    Inv g (removeOne acc c).1 := by
+  unfold removeOne
+  split
+  · refine ⟨?_, hs.handles⟩
+    intro c' m' h'
+    simp only at h'
+    by_cases hc : c' = c
+    · subst hc; rw [lget_ldel_same] at h'; cases h'
+    · rw [lget_ldel_other _ hc] at h'; exact hs.fronts _ _ h'
+  · exact hs
+
+theorem inv_flush {g : Bool} {s : State V} (hs : Inv g s) : Inv g (flush s).1 := by
+  unfold flush
+  have h0 : Inv g ({ s with closing := [] } : State V) := ⟨hs.fronts, hs.handles⟩
+  generalize ({ s with closing := [] } : State V) = s0 at h0
+  induction s.closing with
+  | nil => exact h0
+  | cons c l ih => exact inv_removeOne c ih
+
+theorem stepF_inv {g : Bool} (cfg : Cfg) {s : State V} {op : Op V} (hs : Inv g s) (hg : GuardOp g op) :
+    Inv g (stepF cfg dr s op).st := inv_flush (step_inv cfg hs hg)
+
 theorem run_inv {g : Bool} (cfg : Cfg) {s : State V} (ops : List (Op V)) (hs : Inv g s)
-    (hg : ∀ op ∈ ops, GuardOp g op) : Inv g (run cfg s ops).1 := by
-  induction ops generalizing s with
+    (hg : ∀ op ∈ ops, GuardOp g op) : Inv g (run cfg vw s ops).1 := by
+  induction ops generalizing s vw with
   | nil => exact hs
   | cons op ops ih =>
-    exact ih (step_inv cfg hs (hg op (by simp))) (fun o ho => hg o (by simp [ho]))
+    exact ih (stepF_inv cfg hs (hg op (by simp))) (fun o ho => hg o (by simp [ho]))
 
 end Inv
 
@@ -809,10 +877,22 @@ theorem sstep_replay (cfg : Cfg) (s : State V) (sess : Sess V) (kept : Option St
         · subst hc; simp [lget_lset_same, hm, amerge_single]
         · have : c ≠ c0 := Ne.symm hc
           simp [hc, lget_lset_other _ _ this]
-      cases op <;> first | exact setCase _ _ | simp
+      cases op <;> first | exact setCase _ _ | (simp; done) | (by_cases hF : cfg.isFront c0.1 = true <;> simp [hF, (markClosing_fields s c0).1])
   | back b =>
     simp only [sstep]
     cases op with
+    | clone h =>
+      simp only [sstepBack]
+      split
+      · simp
+      · split
+        · simp
+        · split <;> simp
+    | kick =>
+      simp only [sstepBack]
+      split
+      · simp
+      · simp [(backKick_fields cfg s b).1]
     | push =>
       simp only [sstepBack]
       split
@@ -861,10 +941,20 @@ theorem sstep_evs_conn (cfg : Cfg) (s : State V) (sess : Sess V) (kept : Option 
     simp only [sstep, sstepFront]
     cases hm : lget s.fronts c0 with
     | none => simp
-    | some m => cases op <;> simp [Ev.conn, stmtTarget, Sess.target]
+    | some m => cases op <;> first | (simp [Ev.conn, stmtTarget, Sess.target]; done) | (by_cases hF : cfg.isFront c0.1 = true <;> simp [hF])
   | back b =>
     simp only [sstep]
     cases op with
+    | clone h =>
+      simp only [sstepBack]
+      split
+      · simp
+      · split
+        · simp
+        · split <;> simp
+    | kick =>
+      simp only [sstepBack]
+      split <;> simp
     | push =>
       simp only [sstepBack]
       split
@@ -903,18 +993,25 @@ theorem sstep_evs_conn (cfg : Cfg) (s : State V) (sess : Sess V) (kept : Option 
       split <;> simp
     | _ => simp [sstepBack]
 
-/-- statements never touch the handle table or the id allocator -/
-theorem sstep_handles (cfg : Cfg) (s : State V) (sess : Sess V) (kept : Option String) (op : SOp V) :
+/-- statements never touch the id allocator, and the handle table only by `clone` (under the clone's name) -/
+theorem sstep_handles (cfg : Cfg) (s : State V) (sess : Sess V) (kept : Option String) (op : SOp V)
+    (hc : ∀ h, op ≠ .clone h) :
     (sstep cfg s sess kept op).st.handles = s.handles ∧ (sstep cfg s sess kept op).st.next = s.next := by
   cases sess with
   | front c0 =>
     simp only [sstep, sstepFront]
     cases hm : lget s.fronts c0 with
     | none => simp
-    | some m => cases op <;> simp
+    | some m => cases op <;> first | (simp; done) | (by_cases hF : cfg.isFront c0.1 = true <;> simp [hF, (markClosing_fields s c0).2.1, (markClosing_fields s c0).2.2.1])
   | back b =>
     simp only [sstep]
     cases op with
+    | clone h => exact absurd rfl (hc h)
+    | kick =>
+      simp only [sstepBack]
+      split
+      · simp
+      · simp [(backKick_fields cfg s b).2.1, (backKick_fields cfg s b).2.2.1]
     | push =>
       simp only [sstepBack]
       split
@@ -966,7 +1063,7 @@ theorem storeKept_fronts (s : State V) (sess : Sess V) (kept : Option String) :
   unfold storeKept; split <;> rfl
 
 theorem step_replay (cfg : Cfg) (s : State V) (op : Op V) (c : Conn) :
-    lget (step cfg s op).st.fronts c = replay c (lget s.fronts c) (step cfg s op).evs := by
+    lget (step cfg dr s op).st.fronts c = replay c (lget s.fronts c) (step cfg dr s op).evs := by
   cases op with
   | openC f =>
     simp only [step]
@@ -984,11 +1081,7 @@ theorem step_replay (cfg : Cfg) (s : State V) (op : Op V) (c : Conn) :
     · simp
     · split
       · simp
-      · simp only [replay, List.foldl_cons, List.foldl_nil, applyEv]
-        by_cases hc : c0 = c
-        · subst hc; simp [lget_ldel_same]
-        · have : c ≠ c0 := Ne.symm hc
-          simp [hc, lget_ldel_other _ this]
+      · simp [(markClosing_fields s c0).1]
   | req c0 svcType ntf script =>
     simp only [step, stepReq]
     split
@@ -1046,13 +1139,118 @@ theorem step_replay (cfg : Cfg) (s : State V) (op : Op V) (c : Conn) :
       · simp
       · rw [storeKept_fronts]; exact runScript_replay _ _ _ _ _ _
 
+/-- the queued removals, as events: one `closed` per removed connection -/
+theorem removeAll_replay (l : List Conn) (s0 : State V) (c : Conn) :
+    lget (l.foldr (fun c acc => removeOne acc c) (s0, [])).1.fronts c =
+      replay c (lget s0.fronts c) ((l.foldr (fun c acc => removeOne acc c) (s0, [])).2.map (fun e => Ev.closed e.1)) := by
+  induction l with
+  | nil => simp
+  | cons c0 l ih =>
+    simp only [List.foldr_cons]
+    generalize (l.foldr (fun c acc => removeOne acc c) (s0, [])) = acc at ih
+    unfold removeOne
+    split
+    · simp only [List.map_append, List.map_cons, List.map_nil]
+      rw [replay_append, ← ih]
+      simp only [replay, List.foldl_cons, List.foldl_nil, applyEv]
+      by_cases hc : c0 = c
+      · subst hc; simp [lget_ldel_same]
+      · have : c ≠ c0 := Ne.symm hc
+        simp [hc, lget_ldel_other _ this]
+    · exact ih
+
+/-- the removals only delete: what is left was there, what a close handler saw was the map -/
+theorem removeAll_sub (l : List Conn) (s0 : State V) :
+    (∀ c m, lget (l.foldr (fun c acc => removeOne acc c) (s0, [])).1.fronts c = some m → lget s0.fronts c = some m) ∧
+    (∀ e ∈ (l.foldr (fun c acc => removeOne acc c) (s0, [])).2, lget s0.fronts e.1 = some e.2) := by
+  induction l with
+  | nil => exact ⟨fun _ _ h => h, by simp⟩
+  | cons c0 l ih =>
+    simp only [List.foldr_cons]
+    generalize (l.foldr (fun c acc => removeOne acc c) (s0, [])) = acc at ih
+    unfold removeOne
+    split
+    · next m0 hm0 =>
+      refine ⟨?_, ?_⟩
+      · intro c m h
+        simp only at h
+        by_cases hc : c = c0
+        · subst hc; rw [lget_ldel_same] at h; cases h
+        · rw [lget_ldel_other _ hc] at h; exact ih.1 c m h
+      · intro e he
+        simp only [List.mem_append, List.mem_singleton] at he
+        cases he with
+        | inl h => exact ih.2 e h
+        | inr h => subst h; exact ih.1 _ _ hm0
+    · exact ih
+
+theorem removeAll_gone (l : List Conn) (s0 : State V) (c : Conn) (h : c ∈ l) :
+    lget (l.foldr (fun c acc => removeOne acc c) (s0, [])).1.fronts c = none := by
+  induction l with
+  | nil => cases h
+  | cons c0 l ih =>
+    simp only [List.foldr_cons]
+    generalize (l.foldr (fun c acc => removeOne acc c) (s0, [])) = acc at ih
+    by_cases hc : c = c0
+    · subst hc
+      unfold removeOne
+      split
+      · simp [lget_ldel_same]
+      · next hn => exact hn
+    · have hl : c ∈ l := by
+        cases h with
+        | head => exact absurd rfl hc
+        | tail _ h => exact h
+      unfold removeOne
+      split
+      · simp only; rw [lget_ldel_other _ hc]; exact ih hl
+      · exact ih hl
+
+theorem removeAll_frame (l : List Conn) (s0 : State V) (c : Conn) (h : c ∉ l) :
+    lget (l.foldr (fun c acc => removeOne acc c) (s0, [])).1.fronts c = lget s0.fronts c := by
+  induction l with
+  | nil => rfl
+  | cons c0 l ih =>
+    simp only [List.foldr_cons]
+    have hc : c ≠ c0 := fun e => h (by simp [e])
+    have hl : c ∉ l := fun e => h (by simp [e])
+    generalize (l.foldr (fun c acc => removeOne acc c) (s0, [])) = acc at ih
+    unfold removeOne
+    split
+    · simp only; rw [lget_ldel_other _ hc]; exact ih hl
+    · exact ih hl
+
+theorem removeAll_rest (l : List Conn) (s0 : State V) :
+    (l.foldr (fun c acc => removeOne acc c) (s0, [])).1.closing = s0.closing ∧
+    (l.foldr (fun c acc => removeOne acc c) (s0, [])).1.handles = s0.handles ∧
+    (l.foldr (fun c acc => removeOne acc c) (s0, [])).1.away = s0.away ∧
+    (l.foldr (fun c acc => removeOne acc c) (s0, [])).1.next = s0.next := by
+  induction l with
+  | nil => exact ⟨rfl, rfl, rfl, rfl⟩
+  | cons c0 l ih =>
+    simp only [List.foldr_cons]
+    generalize (l.foldr (fun c acc => removeOne acc c) (s0, [])) = acc at ih
+    unfold removeOne
+    split
+    · exact ih
+    · exact ih
+
+theorem flush_replay (s : State V) (c : Conn) :
+    lget (flush s).1.fronts c = replay c (lget s.fronts c) ((flush s).2.map (fun e => Ev.closed e.1)) :=
+  removeAll_replay s.closing { s with closing := [] } c
+
+theorem stepF_replay (cfg : Cfg) (s : State V) (op : Op V) (c : Conn) :
+    lget (stepF cfg dr s op).st.fronts c = replay c (lget s.fronts c) (stepF cfg dr s op).evs := by
+  simp only [stepF]
+  rw [replay_append, ← step_replay, flush_replay]
+
 theorem run_replay (cfg : Cfg) (s : State V) (ops : List (Op V)) (c : Conn) :
-    lget (run cfg s ops).1.fronts c = replay c (lget s.fronts c) (run cfg s ops).2 := by
-  induction ops generalizing s with
+    lget (run cfg vw s ops).1.fronts c = replay c (lget s.fronts c) (run cfg vw s ops).2 := by
+  induction ops generalizing s vw with
   | nil => simp [run]
   | cons op ops ih =>
     simp only [run]
-    rw [replay_append, ← step_replay, ih]
+    rw [replay_append, ← stepF_replay, ih]
 
 end Hist
 
